@@ -13,6 +13,9 @@ EXTRA = [
     "$[?@.a == 'a\\\\']", "$['\\n']", "$['\\u00e9']", "$[0::-1]", "$[0:2:-1]", "$[::-1]", "$[1:]", "$[:1]", "$[::]", "$[0:0]", "$.a | $.b", "$.a & $.b | $.c1", "$[?@.a in [1, 'a', true, null]]",
     "$[?@.n == count(^[*])]", "$[?count(^[*]) == 1]", "$[?^[0].a == @.a]", "$.b[?@.a == ^[0].a]", "^[?@.a == count(^[*])]", "$[?@.a == 0.0000002]", "$[?@.a == 1.5e-7]", "$[?@.a == 123456789012345680.0]",
     "$[?@.a in ['x\\u0001y', 'z']]", "$[?@.a in ['it\\'s', \"q\\\"\"]]", "$[?(@.a || @.b) && @.c1]", "$[?(@.a || @.b) && (@.c1 || @.a)]", "$[?@.c1 && (@.a || @.b)]", "$[?((@.a || @.b) && @.c1) || @.b]",
+    # comparisons and negations as operands of comparisons (accepted by the default environment)
+    "$[?(@.a == 2) == true]", "$[?(!(@.a == 1)) == true]", "$[?true == (@.a == 2)]", "$[?(@.a < 2) != (@.b < 2)]", "$[?(@.a == 2) == true && @.b]", "$[?(!@.a) == false]",
+    "$[?(!(@.a == 1 || @.b)) == true]", "$[?!(!(@.a == 1))]", "$[?((@.a == 1) == true) == false]", "$[?(@.a in [1, 2]) == (@.b contains 1)]", "$[?(@.a =~ /a.*/) == false]", "$[?(@.a <> 1) == true]",
     "$[?@.a == undefined]", "$[?@.a == nil]", "$[?# == 'a']", "$[?@.a == _.x]", "$[~]", "$.a[~]", "$.~", "$..~", "$[?count(@.*) > 1 && match(@.a, 'a')]", "$[?length(value(@..a)) == 1]",
 ]
 
@@ -29,10 +32,18 @@ NEGATIONS = (
 _NEG_DOCS = [[{"a": 1, "b": 1}, {"a": 2}, {"a": "a", "b": 0}, {"a": "abc"}, {"a": [1, 2]}, {"a": 0, "b": None}, {"b": 1}, {"a": None}, {"a": False}]]
 
 
+# regular-expression literals: inline flags (global and scoped to a group) combined with every flag letter -
+# "regular-expression flags" must survive printing whatever the pattern itself says about flags
+_RE_PATTERNS = ["(?i:ab)c", "(?i)abc", "(?s:a.)b", "(?m:^b$)", "(?s)a.b", "(?m)^b$", "a.b", "^b$", "(?i:a)bc", "(?:ab)c", "(?i:ab)(?s:.)c", "[a-c]+", "(?a:\\w)bc", "(?is:a.)C"]
+_RE_FLAGS = ["", "i", "s", "m", "a", "is", "im", "ms", "ims"]
+REGEXES = [f"$[?@ =~ /{pat}/{fl}]" for pat in _RE_PATTERNS for fl in _RE_FLAGS] + [f"$[?!(@ =~ /{pat}/{fl})]" for pat in _RE_PATTERNS[:4] for fl in ("i", "s", "m")]
+_RE_DOCS = [["abc", "ABC", "ABc", "abC", "aBC", "a\nb", "A\nB", "a\nB", "b", "x\nb\ny", "x\nB", "a\nc", "ab\nc", "AB\nC", "ébc", "a.b", 1, None]]
+
+
 def run(tier, seed):
     docs, texts = U.mixed_queries(tier, seed)
-    texts = texts + EXTRA + NEGATIONS
-    docs = docs + _NEG_DOCS
+    texts = texts + EXTRA + NEGATIONS + REGEXES
+    docs = docs + _NEG_DOCS + _RE_DOCS
     rec = U.Recorder(f"{len(texts)} accepted queries (standard, filters with every grouping, literals, regex flags, extensions, compound) x {len(docs)} documents")
     env = jsonpath.JSONPathEnvironment()
     fc = {"x": 2}
